@@ -407,5 +407,16 @@ def run(F, R, tier):
         B = M.Body(bw)
         calls = [b["term"].get("callee_inst") or "" for b in B.blocks if b["term"]["k"] == "call" and not b.get("cleanup")]
         ser = [c for c in calls if "builtins::pcap::PcapPacket as std::convert::Into<std::vec::Vec<u8>>>::into" in c]
-        R.ob("output-routing", "write() serialises packets through From<&PcapPacket> for all three handle kinds", len(ser) == 3,
-             "%d serialisation calls" % len(ser), F.loc(bw))
+        ok_ = len(ser) == 3
+        det_ = "%d serialisation calls" % len(ser)
+        if not ok_:
+            # the same, however the three handle kinds share code: in the normal form of write() (a shared `write_object(out,
+            # data)` helper read in place) every arm for a packet argument serialises it with `.into()` to Vec<u8> and writes that
+            nb = H.normal(F, H.body_of(bw), keep=("write", "write_all", "into"))
+            pk = [a_ for m_ in H.walk(nb) if m_.get("k") == "match" and not H.is_try(m_) for a_ in m_["arms"]
+                  if any((v or "").endswith("Object::Packet") for v in H.pat_variants(a_["pat"]))]
+            good = [a_ for a_ in pk if any(c.get("k") == "mcall" and c["m"] == "into" and "Vec<u8>" in (c.get("ty") or "") and "PcapPacket" in (c.get("recv_ty") or "")
+                                           for c in H.walk(a_["body"]))]
+            ok_ = bool(pk) and len(good) == len(pk)
+            det_ += "; in normal form %d of %d packet arms serialise through into()" % (len(good), len(pk))
+        R.ob("output-routing", "write() serialises packets through From<&PcapPacket> for all three handle kinds", ok_, det_, F.loc(bw))
